@@ -341,7 +341,9 @@ def run(prog: Program, res: Result, tier: str) -> None:
             res.bad("J-REGISTRY", f"graph registry {c}", r.loc(),
                     f"{inst}: found {gp.get(c)!r}", instance=inst)
     inst = "writer emits type(graph).__name__ / stereo.__class__.__name__"
-    if "type(graph).__name__" in wtxt and "stereo.__class__.__name__" in wtxt:
+    if "type(graph).__name__" in wtxt and (
+            "stereo.__class__.__name__" in wtxt
+            or "type(stereo).__name__" in wtxt):
         res.ok("J-REGISTRY", inst, w.loc())
     else:
         res.unrecognised("J-REGISTRY", inst, w.loc(),
@@ -350,7 +352,8 @@ def run(prog: Program, res: Result, tier: str) -> None:
     n_payload = 0
     for node in ast.walk(w.node):
         if isinstance(node, ast.Dict) and len(node.keys) == 1 and norm(
-                node.keys[0]) == "stereo.__class__.__name__":
+                node.keys[0]) in ("stereo.__class__.__name__",
+                                  "type(stereo).__name__"):
             n_payload += 1
             inst = f"writer payload at line {node.lineno}"
             if norm(node.values[0]) == "(stereo.atoms, stereo.parity)":
